@@ -238,6 +238,13 @@ def standardAttempts (a : Args) (s : SSHArgs) (khLoads keyLoads : Bool) (verdict
   | .error _ => []
   | .ok cfg => if hostKeyAccepted cfg.policy verdict then attemptsUntil accepts cfg.auth else []
 
+/-! ### under which name the known-hosts file is searched -/
+
+/-- `ssh.Dial(tcp, addr, cfg)` hands `addr` itself to the `HostKeyCallback` as `hostname`, and
+that is what `knownhosts` looks up (after normalising `host:port` to `host` / `[host]:port`); the
+address the name resolved to (`peer`, environment) is deliberately not an input of the result. -/
+def hostKeyLookupName (c : ClientCfg) (_peer : Bytes) : Bytes := c.addr
+
 /-! ### the configured identity and how a server answers it -/
 
 /-- `offered_methods_spec`: the auth methods `openBase` configures, as a function of the
